@@ -7,6 +7,7 @@
 import FlacModel.Props.C01
 import FlacModel.Proofs.Codec
 import FlacModel.Proofs.CodecB
+import FlacModel.Proofs.DecodeFacts
 
 namespace Flac.C01
 open Flac Gen
@@ -43,12 +44,6 @@ theorem lpc_restores (p : Profile) (bs prec shift : Nat) (coefs channel : List I
   rw [predict_restore p coefs shift hs hc hl channel res.residuals hx h]
   simp
 
-theorem fixedCoeffs_ok (o : Nat) : (∀ c ∈ fixedCoeffs.getD o [], fitsS 16 c = true) ∧ (fixedCoeffs.getD o []).length ≤ 32
-    ∧ (o ≤ 4 → (fixedCoeffs.getD o []).length = o) := by
-  match o with
-  | 0 | 1 | 2 | 3 | 4 => decide
-  | n + 5 => simp [fixedCoeffs]
-
 /-- a FIXED subframe of order `o ≤ 4` -/
 theorem fixed_restores (p : Profile) (bs o : Nat) (ho : o ≤ 4) (channel : List Int) (res : Residual)
     (hx : ∀ x ∈ channel, fitsS 32 x = true)
@@ -60,17 +55,6 @@ theorem fixed_restores (p : Profile) (bs o : Nat) (ho : o ≤ 4) (channel : List
   rw [h3 ho] at this
   rw [this]
   simp
-
-theorem mapM'_wasted (p : Profile) (w : Nat) (hw : w < 32) (ys : List Int) (hy : ∀ y ∈ ys, fitsS 32 (y * 2 ^ w) = true) :
-    mapM' (wastedShl p 32 w) ys = .ok (ys.map (· * 2 ^ w)) := by
-  induction ys with
-  | nil => simp [mapM']
-  | cons y ys ih =>
-    simp only [mapM', wastedShl, if_true]
-    rw [(wasted_inverse p y w hw (hy y (by simp))).2]; dsimp only
-    have := ih (fun z hz => hy z (by simp [hz]))
-    rw [this]
-    simp
 
 /-- wasted bits: a subframe that expands to `ys` expands, with `w` wasted bits, to `ys` shifted back -/
 theorem wasted_restores (p : Profile) (bs w : Nat) (hw0 : 0 < w) (hw : w < 32) (body : SubBody) (ys : List Int)
